@@ -29,7 +29,7 @@ vars == << kind, shape, inp, phase, cur, first >>
 
 \* shape sets (a .cfg cannot contain tuples)
 Shapes2D  == { s \in [ 1..3 -> 1..3 ] : Is2DShape(s) }            \* 2x2, 2x3, 3x2, 3x3 images, singleton axis anywhere
-Shapes3Dq == { <<2,2,2>>, <<3,3,3>> }
+Shapes3Dq == { <<2,2,2>> }                      \* 3x3x3 (sparse arrays) is explored in the thorough tier only
 Shapes3Dt == { <<2,2,2>>, <<3,3,3>>, <<2,2,3>>, <<2,3,2>>, <<3,2,2>>, <<3,3,2>>, <<3,2,3>>, <<2,3,3>>, <<4,4,1>>, <<1,2,2>> }
 ShapesQ   == Shapes2D \cup Shapes3Dq
 ShapesT   == Shapes2D \cup Shapes3Dt
@@ -41,7 +41,7 @@ Inputs(s) ==
     IF Size(s) <= Full3 THEN [ Positions(s) -> {0, 8, 16} ]
     ELSE IF Size(s) <= Full2 THEN [ Positions(s) -> {0, 8} ]
     ELSE { [ p \in Positions(s) |-> IF p = a THEN va ELSE IF p = b THEN vb ELSE 0 ] :
-              a \in Positions(s), b \in Positions(s), va \in {0, 8, 16}, vb \in {8, 16} }
+              a \in Positions(s), b \in Positions(s), va \in {0, 8}, vb \in {8, 16} }
 
 \* geometry sanity, checked once: every Sigma is an involution on the positions of every applicable shape
 ASSUME \A k \in KindSet, s \in ShapeSet : Applicable(k, s) => SigmaInvolution(k, s)
